@@ -108,11 +108,24 @@ def jobs(prop, tier):
 
         def SNS(cfg, kind, n, num, depth):
             return dict(mode="sim", cfg=cfg, kind=kind, n=n, num=num, depth=depth, tool="snapreplay", dump_module="OrdaSnapDump.tla")
+        # realtime half of C18: OrdaRealtime replayed on real REALTIME clients behind gRPC with a gated broker
+        def RT(cfg, rate=1.0):
+            return dict(mode="edge", cfg=cfg, kind="counter", n=2, rate=rate, tool="rtreplay", dump_module="OrdaRealtimeDump.tla")
+
+        def RTS(num, depth):
+            return dict(mode="sim", cfg="rt_sim", kind="counter", n=3, num=num, depth=depth, tool="rtreplay", dump_module="OrdaRealtimeDump.tla")
+
+        def RTM(cfg):
+            return dict(mode="mc", cfg=cfg, kind="counter", module="OrdaRealtime.tla")
+        rt = []
+        if prop == "C18":
+            rt = ([RT("rt_1k_edge", 0.04), RT("rt_2k_edge", 0.004), RTS(5, 40), RTM("rt_live_1k"), RTM("rt_live_2k")] if q else
+                  [RT("rt_1k_edge", 1.0), RT("rt_2k_edge", 0.1), RTS(150, 60), RTM("rt_live_1k"), RTM("rt_live_2k"), RTM("rt_2k"), RTM("rt_3c"), RTM("rt_1k2")])
         if q:
             return ([SN("snap_small_edge", k) for k in ("counter", "map")] + [SN("snap_mid_edge", k, rate=0.25) for k in ("list", "doc")] +
-                    [SNS("snap_sim", "list", 3, 6, 40), SNS("snap_sim", "doc", 3, 6, 40)])
+                    [SNS("snap_sim", "list", 3, 6, 40), SNS("snap_sim", "doc", 3, 6, 40)]) + rt
         return ([dict(mode="mc", cfg="snap_mc", kind="list", module="OrdaSnap.tla")] + [SN("snap_mid_edge", k) for k in ("counter", "map", "list", "doc")] +
-                [SN("snap_patch_edge", "doc")] + [SNS("snap_sim", k, 3, 60, 50) for k in ("counter", "map", "list", "doc")])
+                [SN("snap_patch_edge", "doc")] + [SNS("snap_sim", k, 3, 60, 50) for k in ("counter", "map", "list", "doc")]) + rt
     if prop == "C16":
         f = dict(dump_module="OrdaSyncProbeDump.tla")
         if q:
